@@ -9,7 +9,13 @@
   takes a list and is used with `args_in.getD []`; the theorems below show that this is sound:
   `None` and `[]` give the same result in the code. The translated result is a dynamic value
   (`Val.none` for Python `None`), the model's an `Option Val`: `ofVal` converts.
-  Not covered here: the `json` parser (calls `json.loads`), and everything the file-based parsers do.
+  The `json` parser: `json.loads` is an opaque function of the joined text - a PARAMETER `loads` of both the
+  translated definition and the model; the translator accepts exactly the call `json.loads(<str>)` (any further
+  positional or keyword argument - `strict=False`, `cls=`, `object_hook=`, `parse_float=` … - selects a
+  different function of the text and makes the translation fail = this file does not build). What `loads`
+  is (Python's strict RFC 8259 decoder) is the harness's business: `check_parsers` compares with the stdlib
+  decoder on texts with raw control characters, non-ASCII, quotes, escapes, lone surrogates, NaN, duplicates.
+  Not covered here: everything the file-based parsers do.
 -/
 import Generated.TranslatedParserKeyvaluepairs
 import Generated.TranslatedParserList
@@ -17,6 +23,7 @@ import Generated.TranslatedParserString
 import Generated.TranslatedParserKeys
 import Generated.TranslatedParserDict
 import Generated.TranslatedParserArgskwargs
+import Generated.TranslatedParserJson
 import PypyrModel.Cli
 
 set_option linter.unusedSimpArgs false
@@ -125,6 +132,36 @@ theorem translated_argskwargs_eq_model (loads : String → Except Exc Val) (args
         intro st a; obtain ⟨o, al⟩ := st
         by_cases hs : hasSep a <;> simp [partitionChar_eq, PyRt.truthyStr, dictSet_eq, hs])]
       simp [ofVal, dictSet_eq, strList]
+
+/-- the json parser: for EVERY `loads` (the same one on both sides, applied to the space-joined text and to
+    nothing else) the translated code is the model: `None` without arguments, the loaded object when it is a
+    dict, `loads`'s own error unchanged, the TypeError (with the message of the code) for any other value. -/
+theorem translated_json_eq_model (loads : String → Except Exc Val) (args : Option (List String)) :
+    parse loads .json (args.getD []) = (ParserJson.get_parsed_context args loads).map ofVal := by
+  rcases args with _ | l
+  · simp [ParserJson.get_parsed_context, parse, ofVal, Except.map, pure, Except.pure]
+  · by_cases h : l = []
+    · subst h; simp [ParserJson.get_parsed_context, parse, ofVal, truthyList_eq, Except.map, pure, Except.pure]
+    · simp only [ParserJson.get_parsed_context, parse, truthyList_eq, isEmpty_false_of_ne h, Option.getD_some,
+        Bool.not_false, if_true, Bool.false_eq_true, if_false, strJoin_eq]
+      rcases hl : loads (joinSp l) with e | v
+      · simp [Except.map, bind, Except.bind]
+      · cases v <;> simp [Except.map, bind, Except.bind, pure, Except.pure, ofVal, typeErrorJson, throw, throwThe,
+          MonadExceptOf.throw]
+
+/-- the translated json parser looks at the argument list only through `loads (' '.join(args))`: two `loads`
+    that agree on that one text give the same result. -/
+theorem translated_json_uses_loads_on_joined_text (l1 l2 : String → Except Exc Val) (args : List String)
+    (h : l1 (joinSp args) = l2 (joinSp args)) :
+    ParserJson.get_parsed_context (some args) l1 = ParserJson.get_parsed_context (some args) l2 := by
+  by_cases hn : args = []
+  · subst hn; simp [ParserJson.get_parsed_context, truthyList_eq]
+  · simp only [ParserJson.get_parsed_context, truthyList_eq, isEmpty_false_of_ne hn, Bool.not_false, if_true,
+      strJoin_eq, h]
+
+example : ParserJson.get_parsed_context (some ["{", "}"]) (fun s => if s = "{ }" then .ok (.dict []) else .error ⟨"E", s⟩)
+    = .ok (.dict []) := by
+  simp [ParserJson.get_parsed_context, PyRt.truthyList, PyRt.strJoin, bind, Except.bind, pure, Except.pure]
 
 example : ParserKeyvaluepairs.get_parsed_context (some ["a=b", "c", "a=d=e"]) =
     .dict [(.str "a", .str "d=e"), (.str "c", .str "")] := by decide +kernel
